@@ -32,7 +32,7 @@ m = dict(
     hooks=dict(guard="verif (Go build tag)", enable="go build -tags verif (harness/go.mod replaces github.com/emmansun/gmsm with /repo; every check rebuilds the child binary from /repo's working tree)",
                baseline_off_cmd="cd /repo && GOFLAGS=-mod=mod GOPROXY=off GOSUMDB=off go test -json -vet=off -count=1 -timeout 25m ./...",
                source_commits=HOOK_COMMITS, add_only=True),
-    engines=[dict(name="vchild", path="/verif/harness/cmd/vchild", serves_properties=sorted(p for p in PLAN if p in ENABLED),
+    engines=[dict(name="vchild", path="/verif/harness/cmd/vc", serves_properties=sorted(p for p in PLAN if p in ENABLED),
                   kind_free_text="Go child binary (one process per build variant x dispatch configuration x workload x shard) executing the real library "
                                  "under generated/hostile/stress workloads with reference-model, accept-set, history, panic/fault, guard-page and "
                                  "race-detector monitors; python3 driver plans, spawns, attributes crashes, compares configurations and writes evidence")],
